@@ -19,8 +19,9 @@ the exact aggregate rule.  This file adds (helper lemmas: `Lemmas/Closed15b`, th
    `cov_outcome` is the complete outcome table (`ValueError` iff no mismatch and the lag-adjusted window is degenerate),
    `cov_same_side`: consistently closed operands never raise a mismatch.  Where it raises: `prepCore_mismatch`,
    `covPrep_error_iff` (in the mutual masking iff an operand is undefined somewhere – `isna_hasSteps_iff` –, otherwise
-   in the product).  `corrParts_error_iff`: the same, EXCEPT that for a degenerate window and operands defined everywhere
-   `corr` reports the `ValueError` first (`cov` reports the mismatch) – a genuine ordering difference in the model.
+   in the product).  `corrParts_error_iff` / `corrParts_outcome`: EXACTLY the same for `corr` (the covariance is evaluated
+   before the clips for the two variances, so the closed-side check also precedes the `ValueError` of a degenerate
+   window); `corrParts_error_iff_cov_error`: `cov` and `corr` raise the same errors.
    The DEFECTIVE `corrEarly` (NaN before the covariance when a variance is zero) is refuted (`corrEarly_misses_mismatch`,
    `corrEarly_error_iff_false`) and shown to agree with `corrParts` whenever there is no mismatch (`corrEarly_agrees`,
    `corrSame_corrIs`).
@@ -473,10 +474,11 @@ theorem cov_error_iff_needs_canonical :
 
 /-! ### corr -/
 
-/-- the tail of `corrParts` after the preparation -/
+/-- the tail of `corrParts` after the preparation: the covariance FIRST (and with it the closed-side check of the
+product), then the two clips for the variances -/
 def corrTail (f1 g1 : Stairs Rat) (lo hi : Option Rat) : Except Err (Val × Val × Val) :=
-  clipW f1 lo hi >>= fun b => clipW g1 lo hi >>= fun c =>
-    cov f1 g1 lo hi 0 true >>= fun cv => pure (cv, var b, var c)
+  cov f1 g1 lo hi 0 true >>= fun cv => clipW f1 lo hi >>= fun b => clipW g1 lo hi >>= fun c =>
+    pure (cv, var b, var c)
 
 theorem corrParts_eq (f g : Stairs Rat) (lo hi : Option Rat) (lag : Rat) (cp : Bool) :
     corrParts f g lo hi lag cp =
@@ -500,12 +502,19 @@ theorem corrTail_of_not_mismatch (f1 g1 : Stairs Rat) (lo hi : Option Rat) (hm :
     obtain ⟨v, hv⟩ := (cov_of_not_mismatch f1 g1 lo hi 0 true hm).1 (by rw [hiLag_zero]; exact hb)
     refine ⟨b, c, v, hb', hc, hv, ?_⟩
     unfold corrTail
-    rw [hb']; simp only [bind, Except.bind]
-    rw [hc]; simp only []
-    rw [hv]; rfl
+    rw [hv]; simp only [bind, Except.bind]
+    rw [hb']; simp only []
+    rw [hc]; rfl
   · intro hb
     unfold corrTail
-    rw [(clipW_of_bounds f1 lo hi).2 hb]; rfl
+    rw [(cov_of_not_mismatch f1 g1 lo hi 0 true hm).2 (by rw [hiLag_zero]; exact hb)]; rfl
+
+/-- the covariance comes first: a mismatch of the masked operands raises whatever the window -/
+theorem corrTail_of_mismatch (f1 g1 : Stairs Rat) (lo hi : Option Rat)
+    (c1 : f1.Canonical) (c2 : g1.Canonical) (hm : Mismatch f1 g1) :
+    corrTail f1 g1 lo hi = .error .closedMismatch := by
+  unfold corrTail
+  rw [cov_of_mismatch f1 g1 lo hi 0 true c1 c2 hm]; rfl
 
 /-- **corr without a mismatch**: the only possible error is the `ValueError` of a degenerate window -/
 theorem corrParts_of_not_mismatch (f g : Stairs Rat) (lo hi : Option Rat) (lag : Rat) (cp : Bool)
@@ -519,76 +528,84 @@ theorem corrParts_of_not_mismatch (f g : Stairs Rat) (lo hi : Option Rat) (lag :
   obtain ⟨h1, h2⟩ := corrTail_of_not_mismatch f1 g1 lo (hiLag hi lag cp) hm1
   exact ⟨fun hb => by obtain ⟨b, c, v, _, _, _, h⟩ := h1 hb; exact ⟨_, h⟩, h2⟩
 
-/-- **corr on canonical operands with a mismatch**: `ClosedMismatch`, except that for a degenerate window AND
-operands that are both defined everywhere the window check of the two variances comes first (`ValueError`) -/
+/-- **corr on canonical operands with a mismatch raises `ClosedMismatch`** – whatever the window (also a degenerate
+one: the covariance, and with it the closed-side check, is evaluated before the clips for the two variances), the
+lag and the clip mode; exactly like `cov_of_mismatch` -/
 theorem corrParts_of_mismatch (f g : Stairs Rat) (lo hi : Option Rat) (lag : Rat) (cp : Bool)
     (hf : f.Canonical) (hg : g.Canonical) (hm : Mismatch f g) :
-    (boundsOk lo (hiLag hi lag cp) = true ∨ (unop .isna f).hasSteps = true ∨ (unop .isna g).hasSteps = true →
-      corrParts f g lo hi lag cp = .error .closedMismatch) ∧
-    (boundsOk lo (hiLag hi lag cp) = false → (unop .isna f).hasSteps = false → (unop .isna g).hasSteps = false →
-      corrParts f g lo hi lag cp = .error .valueError) := by
+    corrParts f g lo hi lag cp = .error .closedMismatch := by
   rw [corrParts_eq]
   rcases prepCore_mismatch f (lagged g lag) hf (lagged_canonical g lag hg) ((lagged_mismatch f g lag).mpr hm)
-    with ⟨he, hs⟩ | ⟨f1, g1, hp, hm1, c1, c2, s1, s2⟩
-  · rw [lagged_isna_hasSteps] at hs
-    refine ⟨fun _ => by rw [he]; rfl, fun _ h1 h2 => ?_⟩
-    rcases hs with h | h
-    · rw [h1] at h; cases h
-    · rw [h2] at h; cases h
-  · rw [lagged_isna_hasSteps] at s2
-    rw [hp]
-    constructor
-    · rintro (hb | h | h)
-      · obtain ⟨b, hb', _⟩ := (clipW_of_bounds f1 lo (hiLag hi lag cp)).1 hb
-        obtain ⟨c, hc, _⟩ := (clipW_of_bounds g1 lo (hiLag hi lag cp)).1 hb
-        show corrTail f1 g1 lo (hiLag hi lag cp) = _
-        unfold corrTail
-        rw [hb']; simp only [bind, Except.bind]
-        rw [hc]; simp only []
-        rw [cov_of_mismatch f1 g1 lo _ 0 true c1 c2 hm1]
-      · rw [s1] at h; cases h
-      · rw [s2] at h; cases h
-    · intro hb _ _
-      show corrTail f1 g1 lo (hiLag hi lag cp) = _
-      unfold corrTail
-      rw [(clipW_of_bounds f1 lo _).2 hb]; rfl
+    with ⟨he, _⟩ | ⟨f1, g1, hp, hm1, c1, c2, _⟩
+  · rw [he]; rfl
+  · rw [hp]; exact corrTail_of_mismatch f1 g1 lo _ c1 c2 hm1
 
-/-- **`corrParts_error_iff`** – canonical operands, any window / lag / clip mode -/
+/-- the direction "raises ⇒ mismatch" needs no hypothesis on the operands at all -/
+theorem corrParts_error_imp_mismatch (f g : Stairs Rat) (lo hi : Option Rat) (lag : Rat) (cp : Bool)
+    (h : corrParts f g lo hi lag cp = .error .closedMismatch) : Mismatch f g := by
+  by_contra hm
+  obtain ⟨h1, h2⟩ := corrParts_of_not_mismatch f g lo hi lag cp hm
+  cases hb : boundsOk lo (hiLag hi lag cp) with
+  | true => obtain ⟨v, hv⟩ := h1 hb; rw [hv] at h; cases h
+  | false => rw [h2 hb] at h; cases h
+
+/-- **`corrParts_error_iff`** – for canonical operands, ANY window (bounded, unbounded, degenerate), lag and clip
+mode: `corr` raises `ClosedMismatch` iff both operands have steps and are closed on different sides – the same
+characterisation as `cov_error_iff`, with no extra condition on the window -/
 theorem corrParts_error_iff (f g : Stairs Rat) (lo hi : Option Rat) (lag : Rat) (cp : Bool)
     (hf : f.Canonical) (hg : g.Canonical) :
-    corrParts f g lo hi lag cp = .error .closedMismatch ↔
-      Mismatch f g ∧ (boundsOk lo (hiLag hi lag cp) = true ∨
-        (unop .isna f).hasSteps = true ∨ (unop .isna g).hasSteps = true) := by
-  constructor
-  · intro h
-    by_cases hm : Mismatch f g
-    · refine ⟨hm, ?_⟩
-      by_contra hno
-      push Not at hno
-      obtain ⟨n1, n2, n3⟩ := hno
-      rw [(corrParts_of_mismatch f g lo hi lag cp hf hg hm).2 (by simpa using n1) (by simpa using n2)
-        (by simpa using n3)] at h
-      cases h
-    · obtain ⟨h1, h2⟩ := corrParts_of_not_mismatch f g lo hi lag cp hm
-      cases hb : boundsOk lo (hiLag hi lag cp) with
-      | true => obtain ⟨v, hv⟩ := h1 hb; rw [hv] at h; cases h
-      | false => rw [h2 hb] at h; cases h
-  · rintro ⟨hm, h⟩
-    exact (corrParts_of_mismatch f g lo hi lag cp hf hg hm).1 h
+    corrParts f g lo hi lag cp = .error .closedMismatch ↔ Mismatch f g :=
+  ⟨corrParts_error_imp_mismatch f g lo hi lag cp, corrParts_of_mismatch f g lo hi lag cp hf hg⟩
 
-/-- … in particular for every non-degenerate window: raises `ClosedMismatch` iff mismatch, like `cov` -/
+/-- … in particular for every non-degenerate window (a corollary; the hypothesis on the window is no longer needed) -/
 theorem corrParts_error_iff_window (f g : Stairs Rat) (lo hi : Option Rat) (lag : Rat) (cp : Bool)
     (hf : f.Canonical) (hg : g.Canonical) (hb : boundsOk lo (hiLag hi lag cp) = true) :
-    corrParts f g lo hi lag cp = .error .closedMismatch ↔ Mismatch f g := by
-  rw [corrParts_error_iff f g lo hi lag cp hf hg]
-  exact ⟨fun h => h.1, fun h => ⟨h, Or.inl hb⟩⟩
+    corrParts f g lo hi lag cp = .error .closedMismatch ↔ Mismatch f g :=
+  corrParts_error_iff f g lo hi lag cp hf hg
 
-/-- `corr` raises `ClosedMismatch` only if `cov` does – and the converse FAILS for a degenerate window
-(`cov` checks the sides first, `corr` clips for the variances first) -/
+/-- the complete outcome table of `corr` on canonical operands – the same as `cov_outcome` -/
+theorem corrParts_outcome (f g : Stairs Rat) (lo hi : Option Rat) (lag : Rat) (cp : Bool)
+    (hf : f.Canonical) (hg : g.Canonical) (e : Err) :
+    corrParts f g lo hi lag cp = .error e ↔
+      (e = .closedMismatch ∧ Mismatch f g) ∨
+      (e = .valueError ∧ ¬ Mismatch f g ∧ boundsOk lo (hiLag hi lag cp) = false) := by
+  by_cases hm : Mismatch f g
+  · rw [corrParts_of_mismatch f g lo hi lag cp hf hg hm]
+    constructor
+    · intro h; injection h with h; exact Or.inl ⟨h.symm, hm⟩
+    · rintro (⟨h, _⟩ | ⟨_, h, _⟩)
+      · rw [h]
+      · exact absurd hm h
+  · obtain ⟨h1, h2⟩ := corrParts_of_not_mismatch f g lo hi lag cp hm
+    cases hb : boundsOk lo (hiLag hi lag cp) with
+    | true =>
+      obtain ⟨v, hv⟩ := h1 hb
+      rw [hv]
+      constructor
+      · intro h; cases h
+      · rintro (⟨_, h⟩ | ⟨_, _, h⟩)
+        · exact absurd h hm
+        · cases h
+    | false =>
+      rw [h2 hb]
+      constructor
+      · intro h; injection h with h; exact Or.inr ⟨h.symm, hm, rfl⟩
+      · rintro (⟨_, h⟩ | ⟨h, _, _⟩)
+        · exact absurd h hm
+        · rw [h]
+
+/-- **`cov` and `corr` raise the same errors** (canonical operands, any window / lag / clip mode, any error) -/
+theorem corrParts_error_iff_cov_error (f g : Stairs Rat) (lo hi : Option Rat) (lag : Rat) (cp : Bool)
+    (hf : f.Canonical) (hg : g.Canonical) (e : Err) :
+    corrParts f g lo hi lag cp = .error e ↔ cov f g lo hi lag cp = .error e := by
+  rw [corrParts_outcome f g lo hi lag cp hf hg e, cov_outcome f g lo hi lag cp hf hg e]
+
+/-- `corr` raises `ClosedMismatch` only if `cov` does (one half of `corrParts_error_iff_cov_error`; the converse now
+holds as well, also for a degenerate window) -/
 theorem corrParts_error_imp_cov_error (f g : Stairs Rat) (lo hi : Option Rat) (lag : Rat) (cp : Bool)
     (hf : f.Canonical) (hg : g.Canonical) (h : corrParts f g lo hi lag cp = .error .closedMismatch) :
     cov f g lo hi lag cp = .error .closedMismatch :=
-  cov_of_mismatch f g lo hi lag cp hf hg ((corrParts_error_iff f g lo hi lag cp hf hg).mp h).1
+  cov_of_mismatch f g lo hi lag cp hf hg ((corrParts_error_iff f g lo hi lag cp hf hg).mp h)
 
 theorem corrParts_same_side (f g : Stairs Rat) (lo hi : Option Rat) (lag : Rat) (cp : Bool)
     (hc : f.closed = g.closed) :
@@ -616,11 +633,16 @@ example : covPrep wl wn (some 0) (some 4) 0 true = .error .closedMismatch ∧
     covPrep wl wr (some 0) (some 4) 0 true = .ok (wl, wr, some 0, some 4) ∧
     binop .mul wl wr = .error .closedMismatch ∧
     (unop .isna wn).hasSteps = true ∧ (unop .isna wl).hasSteps = false := by decide +kernel
-/-- the degenerate-window discrepancy between `cov` and `corr` (operands defined everywhere) -/
+/-- degenerate window + mismatch: `cov` and `corr` raise the SAME error, `ClosedMismatch` (operands defined everywhere
+or not); without a mismatch both report the `ValueError` of the window -/
 example : cov wl wr (some 4) (some 0) 0 true = .error .closedMismatch ∧
-    corrParts wl wr (some 4) (some 0) 0 true = .error .valueError ∧
+    corrParts wl wr (some 4) (some 0) 0 true = .error .closedMismatch ∧
+    cov wl wn (some 4) (some 0) 0 true = .error .closedMismatch ∧
     corrParts wl wn (some 4) (some 0) 0 true = .error .closedMismatch ∧
-    corrParts wl wr (some 0) (some 4) 0 true = .error .closedMismatch := by decide +kernel
+    cov wl wr (some 0) (some 4) 0 true = .error .closedMismatch ∧
+    corrParts wl wr (some 0) (some 4) 0 true = .error .closedMismatch ∧
+    cov wl wl2 (some 4) (some 0) 0 true = .error .valueError ∧
+    corrParts wl wl2 (some 4) (some 0) 0 true = .error .valueError := by decide +kernel
 
 /-- **the DEFECTIVE variant** (found in the library, repaired since): `corr` returned NaN as soon as one of the
 variances over the window is zero – BEFORE the covariance (and with it the closed-side check of the product) was
